@@ -790,6 +790,11 @@ func TestVerifC01(t *testing.T) {
 			v.Oracle(false, "harness:forged-qc-script-genuine-branch-does-not-commit:"+cons, fmt.Sprintf("replica 2 committed %v", res4.commits["r2n0"]), nil)
 		}
 		emitHist(cons, 4, res4.hist.spec, res4, "script-forged-qc-after-cached-single-signature")
+		res5, err := c01RogueKeyBLS(cons, 7)
+		if err != nil {
+			t.Fatalf("world: %v", err)
+		}
+		emitHist(cons, 4, res5.hist.spec, res5, "script-bls-rogue-key-forged-certificates")
 		res2, err := c01StaleQCLeader(cons, 7)
 		if err != nil {
 			t.Fatalf("world: %v", err)
@@ -1951,6 +1956,123 @@ func c01ForgedQCCache(cons string, seed int64) (*c01Result, error) {
 		newview(fq, h1)
 		send(nb, h1)
 		pp = nb
+	}
+	return c01Finish(h, live, 0), nil
+}
+
+// c01RogueKeyBLS (BLS12 stacks): a member whose proof of possession does not verify contributes nothing.
+// The Byzantine replica registers the rogue key x*G - pk1 - pk2 with a replayed proof and shows replicas 2
+// and 3 two different chains whose certificates "by {1,2,4}" it forged alone. Honest replicas must reject
+// them (and commit nothing); a replica that accepts them commits a block nobody voted for, and the two
+// victims' ledgers diverge at the first position.
+func c01RogueKeyBLS(cons string, seed int64) (*c01Result, error) {
+	spec := wSpec{consensus: cons, n: 4, byz: []hotstuff.ID{4}, seed: seed, crypto: "bls12"}
+	for i := 0; i < 20; i++ {
+		spec.leaders = append(spec.leaders, 4)
+	}
+	w, err := newWorld(spec)
+	if err != nil {
+		return nil, err
+	}
+	h := newC01Hist(w, spec)
+	B := w.nodes[NodeID{ReplicaID: 4}]
+	h1, h2, h3 := w.nodes[NodeID{ReplicaID: 1}], w.nodes[NodeID{ReplicaID: 2}], w.nodes[NodeID{ReplicaID: 3}]
+	live := []*wNode{h1, h2, h3}
+	for _, id := range w.order {
+		w.partition[id] = 0
+	}
+	flush := func() {
+		for guard := 0; len(w.pending) > 0 && guard < 10000; guard++ {
+			m := w.pending[0]
+			w.pending = w.pending[1:]
+			to := w.nodes[m.to]
+			if to.byz {
+				w.byzHandle(to, m.payload)
+				h.observe(nil)
+				continue
+			}
+			if p, ok := m.payload.(hotstuff.ProposeMsg); ok {
+				w.regProposal(&p)
+			}
+			to.eventLoop.AddEvent(m.payload)
+			w.drain(to)
+			h.observe(to)
+		}
+	}
+	k := 0
+	mk := func(view hotstuff.View, parent hotstuff.Hash, qc hotstuff.QuorumCert) *hotstuff.Block {
+		k++
+		b := hotstuff.NewBlock(parent, qc, &clientpb.Batch{Commands: []*clientpb.Command{{ClientID: 99, SequenceNumber: uint64(k), Data: []byte("byz")}}}, view, 4)
+		w.regBlock(b)
+		B.blockchain.Store(b)
+		return b
+	}
+	send := func(b *hotstuff.Block, to ...*wNode) {
+		for _, nd := range to {
+			w.byzSendTo(B, nd, hotstuff.ProposeMsg{ID: 4, Block: b})
+		}
+		flush()
+	}
+	newview := func(qc hotstuff.QuorumCert, to ...*wNode) {
+		for _, nd := range to {
+			w.byzSendTo(B, nd, hotstuff.NewViewMsg{ID: 4, SyncInfo: hotstuff.NewSyncInfoWith(qc), FromNetwork: true})
+		}
+		flush()
+	}
+	certify := func(b *hotstuff.Block) (hotstuff.QuorumCert, bool) {
+		if pc, err := B.auth.CreatePartialCert(b); err == nil {
+			B.votesSeen[b.Hash()] = append(B.votesSeen[b.Hash()], pc)
+		}
+		w.byzAssemble(B)
+		h.observe(nil)
+		for _, q := range w.qcs {
+			if q.BlockHash() == b.Hash() {
+				return q, true
+			}
+		}
+		return hotstuff.QuorumCert{}, false
+	}
+	gen := hotstuff.GetGenesis()
+	genQC := B.viewStates.HighQC()
+	_ = newview
+	_ = certify
+	// the Byzantine replica re-registers itself everywhere with the rogue key x*G - pk1 - pk2 and a replayed
+	// proof of possession (replica 1's; at replica 1 replica 2's, since nobody checks its own proof)
+	pk1, ok1 := h1.config.ReplicaInfo(1)
+	pk2, ok2 := h1.config.ReplicaInfo(2)
+	if !ok1 || !ok2 {
+		return c01Finish(h, live, 0), nil
+	}
+	pub, forge, err := wRogue([]hotstuff.PublicKey{pk1.PubKey, pk2.PubKey})
+	if err != nil {
+		return nil, err
+	}
+	for _, nd := range live {
+		meta := h1.config.ConnectionMetadata()
+		if nd == h1 {
+			meta = h2.config.ConnectionMetadata()
+		}
+		nd.config.AddReplica(&hotstuff.ReplicaInfo{ID: 4, PubKey: pub, Metadata: meta})
+	}
+	forged := func(b *hotstuff.Block) (hotstuff.QuorumCert, bool) {
+		sg, err := forge(b.ToBytes(), []hotstuff.ID{1, 2, 4})
+		if err != nil {
+			return hotstuff.QuorumCert{}, false
+		}
+		return hotstuff.NewQuorumCert(sg, b.View(), b.Hash()), true
+	}
+	// two private four-block chains justified by forged certificates only: one for replica 2, one for replica 3
+	for _, victim := range []*wNode{h2, h3} {
+		parent, q := gen, genQC
+		for v := 1; v <= 5; v++ {
+			nb := mk(hotstuff.View(v), parent.Hash(), q)
+			send(nb, victim)
+			fq, okf := forged(nb)
+			if !okf {
+				break
+			}
+			parent, q = nb, fq
+		}
 	}
 	return c01Finish(h, live, 0), nil
 }
